@@ -63,13 +63,23 @@ def install(R):
                modifies=['self._services', 'self.types', 'self.servers', 'self.has_entries',
                          'info._dns_pointer_cache', 'info._dns_service_cache', 'info._dns_text_cache',
                          'info._dns_address_cache_valid', 'info._addr_nsec_cache_valid'],
-               ensures=['wf_reg(self)',
+               ensures=[
+                        # the name is in its two buckets afterwards and every bucket still holds what it held (stated first: these are the
+                        # witnesses the index invariant needs; no position is promised)
+                        'self.types.has(lower(info.type)) and exists("j:int", lambda j: 0 <= j and j < len(self.types[lower(info.type)]) and self.types[lower(info.type)][j] == info.key)',
+                        'self.servers.has(info.server_key) and exists("j:int", lambda j: 0 <= j and j < len(self.servers[info.server_key]) and self.servers[info.server_key][j] == info.key)',
+                        'forall("t:str, j:int", lambda t, j: implies(old(self.types.has(t)) and 0 <= j and j < old(len(self.types[t])), '
+                        '   self.types.has(t) and exists("m:int", lambda m: 0 <= m and m < len(self.types[t]) and self.types[t][m] == old(self.types[t][j]))))',
+                        'forall("t:str, j:int", lambda t, j: implies(old(self.servers.has(t)) and 0 <= j and j < old(len(self.servers[t])), '
+                        '   self.servers.has(t) and exists("m:int", lambda m: 0 <= m and m < len(self.servers[t]) and self.servers[t][m] == old(self.servers[t][j]))))',
+                        'wf_reg(self)',
                         'forall("k:str", lambda k: self._services.has(k) == (old(self._services.has(k)) or k == info.key))',
                         'forall("k:str", lambda k: implies(self._services.has(k), self._services[k] is ite(k == info.key, info, old(self._services[k]))))',
                         # replies built after (re)registration use fresh records
                         'info._dns_pointer_cache is None and info._dns_service_cache is None and info._dns_text_cache is None '
                         'and not info._dns_address_cache_valid and not info._addr_nsec_cache_valid',
                         'self.has_entries'])
+    R.contracts[(M, 'ServiceRegistry._add')].chain_ensures = True
     R.contract(M, 'ServiceRegistry._remove', P, params={'infos': 'list[ServiceInfo]'},
                requires=['wf_reg(self)', 'forall("j:int", lambda j: implies(0 <= j and j < len(infos), infos[j] is not None))'],
                modifies=['self._services', 'self.types', 'self.servers', 'self.has_entries'],
@@ -122,7 +132,9 @@ def install_getters(R):
     by_index = lambda idx, keyexpr: [
         'forall("j:int", lambda j: implies(0 <= j and j < len(result), result[j] is not None and registered(self, result[j]) and %s == %s))' % (keyexpr.replace('X', 'result[j]'), '{q}'),
         'forall("k:str", lambda k: implies(self._services.has(k) and %s == %s, exists("j:int", lambda j: 0 <= j and j < len(result) and result[j] is self._services[k])))' % (keyexpr.replace('X', 'self._services[k]'), '{q}'),
-        'forall("j:int, m:int", lambda j, m: implies(0 <= j and j < m and m < len(result), result[j] is not result[m]))']
+        'forall("j:int, m:int", lambda j, m: implies(0 <= j and j < m and m < len(result), result[j] is not result[m]))',
+        # (consequence of the first two, stated for the callers) non-empty exactly when some registered service has that key
+        '(len(result) > 0) == exists("k:str", lambda k: self._services.has(k) and %s == %s)' % (keyexpr.replace('X', 'self._services[k]'), '{q}')]
     R.contract(M, 'ServiceRegistry._async_get_by_index', P, params={'records': 'dict[str, list[str]]', 'key': 'str'},
                returns='list[ServiceInfo]',
                requires=['wf_reg(self)',
